@@ -1,6 +1,7 @@
 (* C05 — regular expressions: denotation, automaton, matcher, equivalence. *)
 From Coq Require Import List NArith.
 From PFL Require Import Base.ListSet Spec.Enfa Spec.Regex Model.RegexFA Proofs.RegexFA Oracle.ReMatch Oracle.EnfaEquiv Oracle.EnfaEquivSound.
+From PFL Require Import Spec.Cfg Model.Thompson Proofs.Thompson Model.RegexCfg Proofs.RegexCfg.
 
 Theorem C05_regex_automaton : forall (r : re) (w : list N), Lang (re_fa r) w <-> den r w.
 Proof. exact re_fa_lang. Qed.
@@ -36,3 +37,17 @@ Theorem C05_precedence_instances :
   parse_regex (TLp :: TRp :: nil) = None /\ parse_regex (TStar :: nil) = None /\ parse_regex (TSym 1 :: TUnion :: nil) = None.
 Proof. repeat split; reflexivity. Qed.
 Print Assumptions C05_precedence_instances.
+
+(* Regex.to_epsilon_nfa: the model of pyformlang's construction (states named by the running counter, whose value c at the call is not reset by
+   earlier compilations of the same object; two fresh states per operator or branch) accepts exactly the denotation of the expression, for every expression. The automaton pyformlang
+   returns is compared with this model state by state and transition by transition on every generated expression. *)
+Theorem C05_to_epsilon_nfa_model : forall (c : nat) (r : re) (w : list N), Lang (re_enfa_at c r) w <-> den r w.
+Proof. exact re_enfa_at_lang. Qed.
+Print Assumptions C05_to_epsilon_nfa_model.
+
+(* Regex.to_cfg: the model of pyformlang's construction (one variable "A<n>" per node, the productions of get_cfg_rules)
+   generates exactly the denotation of the expression, for every expression. The grammar pyformlang returns is compared with
+   this model (variables, terminals, productions) on every generated expression. *)
+Theorem C05_to_cfg_model : forall (r : re) (w : list N), LangG (re_cfg r) w <-> den r w.
+Proof. exact re_cfg_lang. Qed.
+Print Assumptions C05_to_cfg_model.
